@@ -26,6 +26,9 @@ Definition guard_table : list (string * list string) := [
   ("client.index.uidToClient", ["client.Storage.mu"]);
   ("client.index.subnetToUID", ["client.Storage.mu"]);
   ("client.runtimeIndex.index", ["client.Storage.mu"]);
+  ("client.upstreamManager.uidToCustomConf", ["client.Storage.mu"]);
+  ("client.upstreamManager.commonConf", ["client.Storage.mu"]);
+  ("client.upstreamManager.confUpdate", ["client.Storage.mu"]);
   (* internal/stats/stats.go: "currMu protects curr", "confMu protects ignored, limit, and enabled" *)
   ("stats.StatsCtx.curr", ["stats.StatsCtx.currMu"]);
   ("stats.StatsCtx.ignored", ["stats.StatsCtx.confMu"]);
@@ -48,6 +51,12 @@ Definition guard_table : list (string * list string) := [
   ("dnsforward.Server.isRunning", ["dnsforward.Server.serverLock"]);
   ("dnsforward.Server.stats", ["dnsforward.Server.serverLock"]);
   ("dnsforward.Server.queryLog", ["dnsforward.Server.serverLock"]);
+  ("dnsforward.Server.addrProc", ["dnsforward.Server.serverLock"]);
+  ("dnsforward.Server.ipset", ["dnsforward.Server.serverLock"]);
+  ("dnsforward.Server.bootstrap", ["dnsforward.Server.serverLock"]);
+  ("dnsforward.Server.bootResolvers", ["dnsforward.Server.serverLock"]);
+  ("dnsforward.Server.dnsNames", ["dnsforward.Server.serverLock"]);
+  ("dnsforward.Server.hasIPAddrs", ["dnsforward.Server.serverLock"]);
   (* internal/filtering/filtering.go: engineLock (engines and rule storages), "confMu protects conf", "filtersMu protects filter lists" *)
   ("filtering.DNSFilter.rulesStorage", ["filtering.DNSFilter.engineLock"]);
   ("filtering.DNSFilter.filteringEngine", ["filtering.DNSFilter.engineLock"]);
@@ -56,6 +65,8 @@ Definition guard_table : list (string * list string) := [
   ("filtering.Config.Filters", ["filtering.Config.filtersMu"]);
   ("filtering.Config.WhitelistFilters", ["filtering.Config.filtersMu"]);
   ("filtering.Config.UserRules", ["filtering.Config.filtersMu"]);
+  ("filtering.Config.FilteringEnabled", ["filtering.Config.filtersMu"]);
+  ("filtering.Config.FiltersUpdateIntervalHours", ["filtering.Config.filtersMu"]);
   ("filtering.Config.ProtectionEnabled", ["filtering.DNSFilter.confMu"]);
   ("filtering.Config.ProtectionDisabledUntil", ["filtering.DNSFilter.confMu"]);
   ("filtering.Config.BlockingMode", ["filtering.DNSFilter.confMu"]);
